@@ -182,19 +182,25 @@ func VerifC20Matcher() {
 	}
 	sec := lib.VerifInt64("unix")
 	loc := time.UTC
-	off := int64(0)
-	switch lib.VerifPick("zone", lib.VerifParam("zones", 1)) {
+	z := lib.VerifPick("zone", lib.VerifParam("zones", 1))
+	if z > 0 && lib.VerifParam("dst", 1) == 0 {
+		z++ // fixed-offset zones only
+	}
+	switch z {
 	case 1:
-		off = 5*3600 + 1800
-		loc = time.FixedZone("plus", int(off))
+		// a zone with daylight-saving transitions
+		l, err := time.LoadLocationFromTZData("Europe/Berlin", []byte(c20BerlinTZ))
+		lib.VerifAssert(err == nil, "zone data loads")
+		loc = l
 	case 2:
-		off = -8 * 3600
-		loc = time.FixedZone("minus", int(off))
+		loc = time.FixedZone("plus", 5*3600+1800)
+	case 3:
+		loc = time.FixedZone("minus", -8*3600)
 	}
 	if w := lib.VerifParam("window", 0); w == 2 {
 		// the month is enumerated, the instant inside it is symbolic: this keeps the calendar
 		// arithmetic of package time nearly branch-free. Months 0..95 are 2023-01 .. 2030-12 (two leap
-		// years); 96..99 are 2000-02 (leap century), 2100-02 (non-leap century), 2038-01, 1970-01.
+		// years); 96..99 are 2000-02 (leap century), 2100-02 (non-leap century), 2038-01, 1999-12.
 		months := lib.VerifParam("months", 48)
 		blocks := lib.VerifParam("blocks", 1)
 		per := (months + blocks - 1) / blocks
@@ -214,12 +220,12 @@ func VerifC20Matcher() {
 		case 98:
 			y, m = 2038, 1
 		case 99:
-			y, m = 1970, 1
+			y, m = 1999, 12
 		}
-		from := time.Date(y, time.Month(m), 1, 0, 0, 0, 0, time.UTC).Unix()
-		to := time.Date(y, time.Month(m+1), 1, 0, 0, 0, 0, time.UTC).Unix()
 		// the enumerated month is the civil month in the job's zone
-		lib.VerifAssume(sec >= from-off && sec < to-off)
+		from := time.Date(y, time.Month(m), 1, 0, 0, 0, 0, loc).Unix()
+		to := time.Date(y, time.Month(m+1), 1, 0, 0, 0, 0, loc).Unix()
+		lib.VerifAssume(sec >= from && sec < to)
 	} else if w == 1 {
 		// 2023-01-01 .. 2031-01-01 UTC (two leap years); the full century is the thorough bound
 		lib.VerifAssume(sec >= 1672531200 && sec < 1924992000)
@@ -261,4 +267,113 @@ func VerifC20Matcher() {
 	}
 	lib.VerifReach("matched against the reference")
 	lib.VerifAssert(b2i(got) == want, "the matcher answers what crontab rules prescribe")
+}
+
+// c20Action counts how often a job is run.
+type c20Action struct{ runs int }
+
+func (a *c20Action) Do(job gen.Atom, node gen.Node, atime time.Time) error { a.runs++; return nil }
+func (a *c20Action) Info() string                                       { return "count" }
+
+// VerifC20Spool: the scheduler's spool for the coming minute after a symbolic history of AddJob /
+// EnableJob / DisableJob / RemoveJob calls on two jobs (real createCron on a hand-built node, before
+// its first tick): a job is queued for the coming tick exactly once if it exists, is enabled and its
+// spec matches that minute (real matcher), and not at all otherwise - so that it fires at the minutes
+// its spec denotes, once, and a disabled or removed job does not fire.
+func VerifC20Spool() {
+	lib.VerifClockAdvance(0)
+	n := vfNode()
+	c := createCron(n)
+	specs := []string{"* * * * *", "0 0 1 1 *", "30 12 * * *", "*/7 * * * *"}
+	names := []gen.Atom{"a", "b"}
+	type model struct {
+		exists, disabled bool
+		spec             string
+	}
+	var m [2]model
+	k := lib.VerifParam("ops", 3)
+	for i := 0; i < k; i++ {
+		j := lib.VerifPick("job", 2)
+		switch lib.VerifPick("op", 4) {
+		case 0:
+			spec := specs[lib.VerifPick("spec", len(specs))]
+			err := c.AddJob(gen.CronJob{Name: names[j], Spec: spec, Location: time.UTC, Action: &c20Action{}})
+			lib.VerifAssert((err == nil) == !m[j].exists, "AddJob succeeds exactly for a free job name")
+			if err == nil {
+				m[j] = model{exists: true, spec: spec}
+			}
+		case 1:
+			err := c.EnableJob(names[j])
+			lib.VerifAssert((err == nil) == m[j].exists, "EnableJob succeeds exactly for an existing job")
+			if err == nil {
+				m[j].disabled = false
+			}
+		case 2:
+			err := c.DisableJob(names[j])
+			lib.VerifAssert((err == nil) == m[j].exists, "DisableJob succeeds exactly for an existing job")
+			if err == nil {
+				m[j].disabled = true
+			}
+		case 3:
+			err := c.RemoveJob(names[j])
+			lib.VerifAssert((err == nil) == m[j].exists, "RemoveJob succeeds exactly for an existing job")
+			if err == nil {
+				m[j] = model{}
+			}
+		}
+	}
+	next := time.Now().Add(time.Minute).Truncate(time.Minute) // the minute of the coming tick
+	info := c.Info()
+	for j := range names {
+		cnt := 0
+		for _, s := range info.Spool {
+			if s == names[j] {
+				cnt++
+			}
+		}
+		want := 0
+		if m[j].exists && !m[j].disabled {
+			mask, err := cronParseSpec(gen.CronJob{Name: names[j], Spec: m[j].spec})
+			lib.VerifAssert(err == nil, "a valid spec is accepted")
+			if err == nil && mask.IsRunAt(next.In(time.UTC)) {
+				want = 1
+			}
+		}
+		lib.VerifAssert(cnt <= 1, "a job is queued for the coming minute at most once")
+		lib.VerifAssert(cnt >= want, "an enabled job whose spec matches the coming minute is queued for it")
+		lib.VerifAssert(cnt == 0 || want == 1, "a job that is disabled, removed or does not match the coming minute is not queued for it")
+	}
+	c.terminate()
+	lib.VerifReach("spool checked")
+}
+
+// VerifC20Tick: one minute tick of the real scheduler under a clock that, between any two reads in
+// node/cron.go, stands still, advances by 20 s or jumps by 61 s (one path per choice; the native
+// replay runs cron.go with its clock and timer calls redirected to the replayed choices). Two jobs
+// that match every minute are queued. Whatever the clock does between the reads, the scheduler must
+// stay alive: after the tick its timer is armed again and the coming minute has not moved backwards; a job is
+// run at most once per tick and only while enabled.
+func VerifC20Tick() {
+	// between any two reads of the clock it stands still, advances by 20 s or jumps by 61 s
+	lib.VerifClockSteps(0, 20000, 61000)
+	n := vfNode()
+	c := createCron(n)
+	a, b := &c20Action{}, &c20Action{}
+	lib.VerifAssert(c.AddJob(gen.CronJob{Name: "a", Spec: "* * * * *", Location: time.UTC, Action: a}) == nil, "job added")
+	lib.VerifAssert(c.AddJob(gen.CronJob{Name: "b", Spec: "* * * * *", Location: time.UTC, Action: b}) == nil, "job added")
+	if lib.VerifPick("disable-b", 2) == 1 {
+		lib.VerifAssert(c.DisableJob("b") == nil, "job disabled")
+	}
+	before := c.next
+	fired := lib.VerifFireTimers()
+	lib.VerifYield()
+	lib.VerifAssert(fired == 1, "the minute timer was pending")
+	lib.VerifAssert(lib.VerifTimersArmed() == 1, "after a tick the scheduler's timer is armed again")
+	lib.VerifAssert(!c.next.Before(before), "the coming minute never moves backwards")
+	lib.VerifAssert(a.runs <= 1 && b.runs <= 1, "a job runs at most once per tick")
+	if c.jobs["b"].disable {
+		lib.VerifAssert(b.runs == 0, "a disabled job does not run")
+	}
+	c.terminate()
+	lib.VerifReach("tick handled")
 }
